@@ -117,7 +117,8 @@ def correspond(tier):
     cp = pipelinex.suite_real_runs(tier, "C01.p", "posterior")
     from . import psoracles
     ct = psoracles.suite_same_temperature(tier, "C01")
-    return [c, cx, cp, ct] + _dependency_suites(tier)
+    cr = psoracles.suite_records_folded(tier)
+    return [c, cx, cp, ct, cr] + _dependency_suites(tier)
 
 
 def _dependency_suites(tier):
